@@ -61,6 +61,11 @@ def judge_mem_exact(rep, s, m, before):
     why = None
     if impl != tuple(mout):
         why = "outcome: MemoryFS %s, transcription %s" % (impl, mout)
+    elif s.op[0] in ("copydir", "movedir") and s.post is not None:
+        # copy_dir (walker + bulk copier: directories first, then files) is abstracted to a
+        # tree-level merge in FsModel.Mem: entry order after a bulk copy is not modelled
+        if H.canon_tree(s.post) != H.canon_tree(H.dec_tree(mtree)):
+            why = "tree: MemoryFS %r, transcription %r" % ([e[:2] for e in H.canon_tree(s.post)][:10], [e[:2] for e in H.canon_tree(H.dec_tree(mtree))][:10])
     elif s.post is not None and H.enc_tree(s.post) != mtree:
         why = "tree/order: MemoryFS %r, transcription %r" % ([e[:2] for e in s.post][:10], [e[:2] for e in H.dec_tree(mtree)][:10])
     if why:
